@@ -82,6 +82,12 @@ def handle (fields : List String) : String :=
   | ["quote", safe, s] => encStr (quote (decStr safe) (decStr s))
   | ["quote_url", s] => encStr (quote urlSafeChars (decStr s))
   | ["unikey", s] => encStr (unikeyPy (decStr s))
+  | ["md_marker", code] => encStr (getFencedMarker (decStr code))
+  | ["md_closes", marker, code] => if closesFence (decStr marker) (decStr code) then "1" else "0"
+  | ["md_block_code", marker, info, code] =>
+    -- an empty `marker` field is `None` (Python treats `""` the same way)
+    let mk : Option Str := if marker.isEmpty then none else some (decStr marker)
+    encStr (mdBlockCode mk (decStr info) (decStr code))
   | ["split", s] => encList (splitWs isSpace (decStr s))
   | ["strip", s] => encStr (stripWs isSpace (decStr s))
   | ["fold", s] => encStr ((decStr s).flatMap foldChar)
